@@ -109,16 +109,18 @@ func wiring(c *core.Ctx, it *interp, wrap, fkey *core.Fn) {
 	info := it.info
 	gmk := it.fn
 	g := cfgq.Of(c.Program, gmk)
+	gk := cfgq.Of(c.Program, it.keyFn) // the function holding the key loop (getMatchKeys or its helper)
+	kbody := it.keyFn.Decl.Body
 	// ---- R5 key predicate
 	calls := core.Calls(it.keyLoop.Body, info, func(_ *ast.CallExpr, o types.Object) bool { return o == types.Object(fkey.Obj) })
 	if len(calls) != 1 || len(calls[0].Args) != 1 {
 		c.Undecidedf("R5.predicate", "getMatchKeys/tested-argument", it.keyLoop.Pos(), "expected exactly one FilterKey call in the key loop, found %d", len(calls))
 	} else {
 		arg := strip(info, calls[0].Args[0])
-		if d := singleDef(info, gmk.Decl.Body, objOf(info, arg)); d != nil {
+		if d := singleDef(info, kbody, objOf(info, arg)); d != nil {
 			arg = strip(info, d)
 		}
-		if ie, ok := arg.(*ast.IndexExpr); ok && objOf(info, ie.X) == info.Defs[it.argsP] {
+		if ie, ok := arg.(*ast.IndexExpr); ok && objOf(info, ie.X) == it.keyArgs {
 			c.Check("R5.predicate", "getMatchKeys/tested-argument", calls[0].Pos(), pat.Same(info, ie.Index, it.loopVar),
 				fmt.Sprintf("FilterKey must be applied to args[%s], the position that is then recorded (found %s): otherwise one argument is judged and another one kept", c.Src(it.loopVar), c.Src(arg)))
 		} else {
@@ -126,14 +128,19 @@ func wiring(c *core.Ctx, it *interp, wrap, fkey *core.Fn) {
 		}
 		keepFact := func(want bool) func(cfgq.Fact) bool { // FilterKey(...) evaluated to `want`
 			return func(f cfgq.Fact) bool {
-				call, sense, ok := polarity(info, gmk.Decl.Body, f.Expr, fkey.Obj, 0)
+				call, sense, ok := polarity(info, kbody, f.Expr, fkey.Obj, 0)
 				return ok && call == calls[0] && (f.Val == sense) == want
 			}
 		}
 		recPat, cntPats := pat.Stmt("_arr[_num] = _i"), []*pat.Pattern{pat.Stmt("_num++"), pat.Stmt("_num += 1"), pat.Stmt("_num = _num + 1")}
-		bd := pat.Binds{"_arr": it.arr, "_num": it.num, "_i": it.loopVar}
+		bd := pat.Binds{"_arr": it.recArr, "_num": it.num, "_i": it.loopVar}
+		want := 2
+		if it.appended { // positions are appended, their number is len(arr): nothing is counted separately
+			recPat, cntPats, want = pat.Stmt("_arr = append(_arr, _i)"), nil, 1
+			bd = pat.Binds{"_arr": it.recArr, "_i": it.loopVar}
+		}
 		n := 0
-		for _, p := range g.Points(func(m ast.Node) bool {
+		for _, p := range gk.Points(func(m ast.Node) bool {
 			if recPat.Match(info, m, bd) != nil {
 				return true
 			}
@@ -150,8 +157,8 @@ func wiring(c *core.Ctx, it *interp, wrap, fkey *core.Fn) {
 				what = "recorded"
 			}
 			key := "getMatchKeys/kept-iff-not-filtered/" + what
-			okKeep, _ := onlyVia(g, p, keepFact(false))
-			okInv, w := onlyVia(g, p, keepFact(true))
+			okKeep, _ := onlyVia(gk, p, keepFact(false))
+			okInv, w := onlyVia(gk, p, keepFact(true))
 			switch {
 			case okKeep:
 				c.Okf("R5.predicate", key, p.Node().Pos(), "a key is %s only when FilterKey returned false", what)
@@ -161,7 +168,7 @@ func wiring(c *core.Ctx, it *interp, wrap, fkey *core.Fn) {
 				c.Undecidedf("R5.predicate", key, p.Node().Pos(), "cannot see that a key is %s only when FilterKey returned false", what)
 			}
 		}
-		if n < 2 {
+		if n < want {
 			c.Undecidedf("R5.predicate", "getMatchKeys/kept-iff-not-filtered", it.keyLoop.Pos(), "recording and counting statements not both found")
 		}
 
@@ -386,6 +393,9 @@ func passVerdict(c *core.Ctx, it *interp, g *cfgq.Graph, kept func(cfgq.Fact) bo
 		return
 	}
 	numObj := objOf(info, it.num)
+	if numObj == nil { // the number of kept keys is spelled len(arr)
+		numObj = objOf(info, it.arr)
+	}
 	for i, e := range exprs {
 		p := pts[i]
 		pos := p.Node().Pos()
@@ -525,9 +535,30 @@ func caller(c *core.Ctx, wrap *core.Fn, wrapperNeg, wrapperKnown bool) {
 	src := types.Object(nil)
 	if o := objOf(info, argsExpr); o != nil {
 		ast.Inspect(fn.Decl.Body, func(m ast.Node) bool {
-			if r, ok := m.(*ast.RangeStmt); ok {
+			switch r := m.(type) {
+			case *ast.RangeStmt:
+				// for _, item := range R { X = append(X, item) }
 				if a, _ := pat.Stmt("_x = append(_x, _item)").Find(info, r.Body, nil); a != nil && objOf(info, a.(*ast.AssignStmt).Lhs[0]) == o {
 					src = objOf(info, r.X)
+				}
+				// for i := range R { X[i] = R[i] }   /   for i, item := range R { X[i] = item }
+				if r.Key != nil {
+					bd := pat.Binds{"_i": r.Key, "_r": r.X}
+					if a, b := pat.Stmt("_x[_i] = _r[_i]").Find(info, r.Body, bd); a != nil && objOf(info, b["_x"].(ast.Expr)) == o {
+						src = objOf(info, r.X)
+					}
+					if r.Value != nil {
+						bd["_v"] = r.Value
+						if a, b := pat.Stmt("_x[_i] = _v").Find(info, r.Body, bd); a != nil && objOf(info, b["_x"].(ast.Expr)) == o {
+							src = objOf(info, r.X)
+						}
+					}
+				}
+			case *ast.ForStmt:
+				// for i := 0; i < len(R); i++ { X[i] = R[i] }
+				if a, b := pat.Stmt("_x[_i] = _r[_i]").Find(info, r.Body, nil); a != nil && objOf(info, b["_x"].(ast.Expr)) == o && r.Cond != nil &&
+					pat.Expr("_i < len(_r)").Match(info, r.Cond, pat.Binds{"_i": b["_i"], "_r": b["_r"]}) != nil {
+					src = objOf(info, b["_r"].(ast.Expr))
 				}
 			}
 			return true
